@@ -320,9 +320,16 @@ def tasks(tier):
                 for lab in labs + ('any',):
                     add(2, 4, e, start, lab, 'slice_some', seed=(0x42, 0x17)[k % 2]); k += 1
                 add(2, 4, e, start, 'alpha', 'slice')
-        for e in rnd.sample(all4, 600):
-            add(2, 4, e, k % 4, (labs + ('any',))[k % 4], 'slice_some', seed=(0x42, 0x17, 0x99)[k % 3]); k += 1
-        for e in rnd.sample(structures(3, 3, False), 150):
+        # structures of four vertices: 2^(number of edges) predicate outcomes, each a path with its own proof; 300 drawn
+        # (any-kind labels only on those with at most four edges); N=3: 40 structures with at most six edges
+        for e in rnd.sample(all4, 300):
+            ne = sum(len(x) for x in e)
+            lab = (labs + ('any',))[k % 4]
+            if lab == 'any' and ne > 4:
+                lab = LABS4[k % 5]
+            add(2, 4, e, k % 4, lab, 'slice_some', seed=(0x42, 0x17, 0x99)[k % 3]); k += 1
+        n3 = [e for e in rnd.sample(structures(3, 3, False), 400) if sum(len(x) for x in e) <= 6][:40]
+        for e in n3:
             add(3, 3, e, k % 3, labs[k % 3], 'slice_some'); k += 1
     # the source's own group structure and an absent, stale, unreachable slot do not matter
     add(2, 3, [[1], [2], []], 0, 'alpha', 'slice_some', grouped={2: [0, 1]})
